@@ -25,13 +25,15 @@ def plan(tier, seed):
             # a clock that starts below zero, stopped exactly at 0 (and at -1, 0): `until` values that are falsy numbers
             dict(depth=d - 2, stop=[-1, 0], init=-2), dict(depth=d - 2, stop=0.0, init=-1),
             # delays far below any rounding threshold next to whole instants
-            dict(depth=d - 1, stop=None, tiny=1)]
+            dict(depth=d - 1, stop=None, tiny=1),
+            # an integer clock far above 2**53 (nanosecond timestamps): instants must stay exact integers
+            dict(depth=d - 2, stop=[2 ** 60 + 1, 2 ** 60 + 2], init=2 ** 60, ints=1)]
     return {"cfgs": cfgs, "budget": None, "bound": "D<=%d (run to exhaustion), D<=%d with run(until=0.5|1|2) and chained run(until=1);run(until=2); <=4 processes" % (d, d - 1)}
 
 
 def execute(ch, cfg):
     from onl.sim import Environment
-    ops = OPS if not cfg.get("tiny") else [o for o in OPS if o not in (("T", 2), ("T", 0.5))] + [("T", 2.0 ** -40), ("T", 1 - 2.0 ** -40)]
+    ops = [o for o in OPS if o != ("T", 0.5)] if cfg.get("ints") else OPS if not cfg.get("tiny") else [o for o in OPS if o not in (("T", 2), ("T", 0.5))] + [("T", 2.0 ** -40), ("T", 1 - 2.0 ** -40)]
     k = KC.K(ch, ops, cfg["depth"], stop_at=cfg["stop"], reaction=False, env=Environment(cfg.get("init", 0))).run()
     res = Result()
     res.digest = k.digest()
